@@ -289,3 +289,56 @@ def c05i(F, R):
             R.bad(f"{v}", f"can_skip_save_checks answers true for the computing instruction kind {v} with {wrong[0]} ({len(wrong)} of {len(envs)} operand combinations): an arithmetic write to the zero register - `li zero, 5`, `addi x0, x0, 1`, `lui x0, 16` - is then reported neither as saving to zero nor as an unused value", sp)
         else:
             R.ok(f"{v}", detail=f"{v} is never exempt ({len(envs)} operand combinations with rd = x0)", where=sp)
+
+
+@rule("C05", "C05.j.what-a-search-finds-reaches-the-report", floor=10)
+def c05j(F, R):
+    """in the lints and in the searches they call, a local that starts empty (`None`, `Vec::new()`) and is later read to decide what is reported must be written in between: an `if let Some(x) = it` whose `it` is never set, or a `for r in ranges` whose `ranges` is never filled, is a report that can no longer happen - the lint stays registered, its kind stays constructible, and it never fires"""
+    from .p_cfg import pass_impls, LINTPASS
+    roots = set(pass_impls(F, LINTPASS).values()) | {q for q in F.fns if "::cfg::graph::Cfg::error_ranges_for_" in q}
+    n = 0
+    for q in sorted(roots):
+        g = F.fns.get(q)
+        if not g or "hir" not in g:
+            continue
+        body = g["hir"]["value"]
+        for st in walk(body, pats=False):
+            if st.get("k") != "Let" or st["pat"].get("k") != "PBinding" or st.get("init") is None:
+                continue
+            init = peel(st["init"])
+            empty = (init.get("k") == "Path" and short(init.get("res") or "") == "None") or \
+                    (init.get("k") == "Call" and short(callee_of(init) or declared_callee(init) or "") in ("new", "default") and not init["args"] and any(t_ in (init.get("ty") or "") for t_ in ("Vec<", "VecDeque<", "HashSet<", "HashMap<", "Option<"))) or \
+                    (init.get("k") == "MacCall" and "vec" in ekey(init))
+            if not empty:
+                continue
+            name = st["pat"]["name"]
+            lid = st["pat"].get("lid")
+            uses = [u for u in walk(body, pats=False) if u.get("k") == "Path" and u.get("res_kind") == "Local" and u.get("res") == name and (lid is None or u.get("lid") in (None, lid))]
+            if not uses:
+                continue
+            from .p_parse import parent_map
+            pm = parent_map(body)
+            written = False
+            for u in uses:
+                x = u
+                par = pm.get(id(x))
+                while par is not None and (par.get("k") in ("DropTemps", "Use") or (par.get("k") == "Unary" and par.get("op") == "Deref")):
+                    x, par = par, pm.get(id(par))
+                if par is None:
+                    continue
+                if par.get("k") == "AddrOf" and par.get("mut"):
+                    written = True
+                if par.get("k") in ("Assign", "AssignOp") and par["l"] is x:
+                    written = True
+                if par.get("k") == "MethodCall" and par["recv"] is x and par["name"] in ("push", "push_back", "push_front", "append", "extend", "insert", "replace", "get_or_insert", "get_or_insert_with", "extend_from_slice", "entry", "retain", "take"):
+                    written = True
+                if par.get("k") in ("Call", "MethodCall") and any(a_ is x for a_ in par.get("args", [])) and "&mut" in (x.get("ty") or x.get("aty") or ""):
+                    written = True
+            n += 1
+            key = f"{short(q.split('::{closure')[0]) if 'error_ranges' in q else short(q.rsplit('::', 1)[0].split(' as ')[0].lstrip('<'))}|{name}"
+            if written:
+                R.ok(key, detail=f"`{name}` starts empty and is filled before it is read", where=loc(st))
+            else:
+                R.bad(key, f"`{name}` starts empty and is read ({len(uses)} use(s)) but nothing ever writes it: whatever is reported from it can no longer be reported", loc(st))
+    if n == 0:
+        raise Anchor("no empty-initialised locals found in the lints (the rule would pass vacuously)")
